@@ -99,6 +99,10 @@ struct World<'a> {
     extra_cores: Vec<(String, u32)>,
     /// set by `BuildUnderIoFault` for the build that follows
     pending_io_fault: Option<(u8, u32)>,
+    /// one history in three is executed by a long-lived server process: every check / build /
+    /// link of the history runs on one thread (the fault-free shadow executions stay fresh
+    /// processes), so state the compiler keeps between operations meets an edited world
+    server: Option<Arc<crate::world::Server>>,
 }
 
 fn art_path(dir: u8, name: &str, core: bool) -> String {
@@ -307,7 +311,10 @@ impl<'a> World<'a> {
             }];
         }
         let mut order2 = Prng::new(entropy);
-        let real = ops::goml(self.sb, &spec2, mk_args(outdir, &mut order2));
+        if self.server.is_some() {
+            *self.st.probes.entry("operations_executed_by_a_long_lived_server_process").or_insert(0) += 1;
+        }
+        let real = ops::goml_on(self.server.as_deref(), self.sb, &spec2, mk_args(outdir, &mut order2));
         self.st.procs += 1;
         for f in &real.fired {
             *self.st.fired.entry(f.clone()).or_insert(0) += 1;
@@ -450,7 +457,7 @@ impl<'a> World<'a> {
         let had_output = self.sb.exists("linked/main.go");
         let spec = ProcSpec { entropy, readdir: entropy, ..Default::default() };
         let mut order = Prng::new(entropy);
-        let res = ops::goml(self.sb, &spec, ops::link_args(self.sb, &existing, "linked/main.go", &mut order));
+        let res = ops::goml_on(self.server.as_deref(), self.sb, &spec, ops::link_args(self.sb, &existing, "linked/main.go", &mut order));
         self.st.procs += 1;
         if res.exit == Exit::Ok && had_output {
             self.sb.remove("linkfresh");
@@ -1091,6 +1098,11 @@ fn new_world<'a>(sb: &'a Sandbox, proj: &Project) -> World<'a> {
         op_index: 0,
         extra_cores: Vec::new(),
         pending_io_fault: None,
+        server: {
+            // a function of the project alone, so shrinking the operation list keeps the mode
+            let d = sha(serde_json::to_string(&crate::props::c13::files_json(&proj.render())).unwrap().as_bytes());
+            if d.as_bytes()[0] % 3 == 0 { Some(crate::world::Server::new()) } else { None }
+        },
     };
     let all: Vec<usize> = (0..w.proj.pkgs.len()).collect();
     w.write_sources(&all);
